@@ -10,6 +10,7 @@ mod c15;
 mod c16;
 mod c17;
 mod expand;
+mod extras;
 mod extract;
 mod model;
 mod report;
@@ -27,6 +28,19 @@ fn main() {
     tool::install_panic_hook();
     match args[0].as_str() {
         "extract" => extract::main(&args[1..]),
+        // debugging aid: `vharness run-file <target> <lib.rs> [outdir]` runs one backend on one file
+        "run-file" => {
+            let src = std::fs::read_to_string(&args[2]).expect("read input");
+            let o = tool::run_backend(&src, &args[1]);
+            println!("parse_error={:?}\npanic={:?}\nlowering_errors={:#?}\nbackend_errors={:#?}\nfiles={:?}", o.parse_error, o.panic, o.lowering_errors, o.backend_errors, o.files.keys().collect::<Vec<_>>());
+            if let Some(dir) = args.get(3) {
+                for (name, text) in &o.files {
+                    let p = std::path::Path::new(dir).join(name);
+                    std::fs::create_dir_all(p.parent().unwrap()).unwrap();
+                    std::fs::write(p, text).unwrap();
+                }
+            }
+        }
         "C03" => c03::main(&args[1..]),
         "C04" => c04::main(&args[1..]),
         "C05" => c05::main(&args[1..]),
